@@ -257,7 +257,7 @@ def match_known(prop, why, crash_sig=None):
 
 # ------------------------------------------------------------- running ----
 SAN_ENV = {
-    'ASAN_OPTIONS': 'exitcode=97:abort_on_error=0:detect_leaks=0:allocator_may_return_null=1:handle_segv=1',
+    'ASAN_OPTIONS': 'exitcode=97:abort_on_error=0:detect_leaks=0:allocator_may_return_null=1:handle_segv=1:handle_abort=1',
     'UBSAN_OPTIONS': 'exitcode=96:halt_on_error=1:print_stacktrace=1',
     'TSAN_OPTIONS': 'exitcode=95:halt_on_error=1:second_deadlock_stack=1',
 }
@@ -284,7 +284,12 @@ def crash_signature(stderr):
     """(kind, first oomd frame) from a sanitizer / abort report."""
     kind = 'crash'
     m = re.search(r'ERROR: AddressSanitizer: ([\w\-]+)', stderr)
-    if m:
+    if m and m.group(1) == 'ABRT' and ('Assertion' in stderr or '__glibcxx_assert' in stderr):
+        kind = 'assert'
+    elif m and m.group(1) == 'ABRT' and 'terminate called' in stderr:
+        mm = re.search(r"terminate called after throwing an instance of '([^']+)'", stderr)
+        kind = 'terminate:' + (mm.group(1) if mm else '?')
+    elif m:
         kind = 'asan:' + m.group(1)
     else:
         m = re.search(r'runtime error: ([^\n]+)', stderr)
@@ -298,6 +303,8 @@ def crash_signature(stderr):
             kind = 'terminate:' + (m.group(1) if m else '?')
         elif 'Assertion' in stderr or '__glibcxx_assert' in stderr:
             kind = 'assert'
+        elif 'AddressSanitizer: ABRT' in stderr:
+            kind = 'abort'
     frame = '?'
     for m in re.finditer(r'#\d+ 0x[0-9a-f]+ in ([^\n]+?) (/[^\s:]+):(\d+)', stderr):
         fn, path = m.group(1), m.group(2)
@@ -406,6 +413,13 @@ class PropRunner:
     def judge(self, binpath, case_obj, why, kind, env=None, crash_sig=None):
         """case_obj: {'case':..., 'why':...}; confirm by replay, then either
         known finding or violation."""
+        nsig = re.sub(r'\d+', 'N', re.sub(r' under faults .*', '', (crash_sig or why or '')))[:160]
+        judged = getattr(self, 'judged_sigs', None)
+        if judged is None:
+            judged = self.judged_sigs = set()
+        if nsig in judged:
+            return
+        judged.add(nsig)
         k = match_known(self.prop, why, crash_sig)
         if k:
             self.known_hits.setdefault(k['what'], 0)
@@ -517,6 +531,117 @@ class PropRunner:
                     raise InfraError('harness died (rc=%s) without a current case: %s' % (rc, se[-3000:]))
                 self.judge(binpath, {'property': self.prop, 'why': sig, 'case': case,
                                      'report': se[-6000:]}, sig, 'crash', env=env_r, crash_sig=sig)
+        return agg
+
+    # -- enumerated cases with crash/violation resume ------------------------
+    def enumerate(self, harness, label, shards, extra_env=None, max_restarts=400, timeout=None):
+        import threading
+        binpath = build_harness(harness)
+        t0 = time.time()
+        agg = dict(evaluations=0, hashes=set(), labels={}, samples=[], discarded=0, shards=shards,
+                   wall_s=0, excluded_by_known_finding=0, extra=[], total_cases=0, completed=True)
+        lock = threading.Lock()
+        sigs = getattr(self, 'seen_sigs', None)
+        if sigs is None:
+            sigs = self.seen_sigs = set()
+        pending = []  # (obj, why, kind, sig)
+        deadline = time.time() + timeout if timeout else None
+
+        def work(i):
+            frm = 0
+            for attempt in range(max_restarts):
+                if deadline and time.time() > deadline:
+                    with lock:
+                        agg['completed'] = False
+                    return
+                env = dict(os.environ)
+                env.update(SAN_ENV)
+                if extra_env:
+                    env.update(extra_env)
+                env['VP_SLICE'] = '%d/%d' % (i, shards)
+                pre = os.path.join(self.tmp, '%s-%d-%d' % (label, i, attempt))
+                cmd = [binpath, 'fixed', '--from', str(frm), '--out', pre + '.out', '--fail', pre + '.fail',
+                       '--cur', pre + '.cur', '--hashes', pre + '.hashes']
+                with open(pre + '.stderr', 'w') as errf, open(pre + '.stdout', 'w') as outf:
+                    try:
+                        rc = subprocess.run(cmd, env=env, stdout=outf, stderr=errf,
+                                            timeout=(deadline - time.time() + 5) if deadline else None).returncode
+                    except subprocess.TimeoutExpired:
+                        rc = -999
+                o = None
+                if os.path.exists(pre + '.out'):
+                    try:
+                        o = json.load(open(pre + '.out'))
+                    except Exception:
+                        o = None
+                with lock:
+                    if o:
+                        agg['evaluations'] += o.get('evaluations', 0)
+                        agg['discarded'] += o.get('discarded', 0)
+                        agg['total_cases'] = max(agg['total_cases'], o.get('extra', {}).get('total_cases', 0))
+                        for k, v in o.get('labels', {}).items():
+                            agg['labels'][k] = agg['labels'].get(k, 0) + v
+                        if len(agg['samples']) < 3:
+                            agg['samples'] += o.get('samples', [])[:1]
+                    if os.path.exists(pre + '.hashes'):
+                        for line in open(pre + '.hashes'):
+                            agg['hashes'].add(line.strip())
+                if rc == 0:
+                    return
+                if rc == -999:
+                    with lock:
+                        agg['completed'] = False
+                    return
+                se = open(pre + '.stderr', errors='replace').read()
+                if rc == 2:
+                    with lock:
+                        pending.append((None, 'infra: ' + se[-1500:], 'infra', None))
+                    return
+                if rc == 3 and os.path.exists(pre + '.fail'):
+                    f = json.load(open(pre + '.fail'))
+                    why = f.get('why', '')
+                    sig = re.sub(r' under faults .*', '', why)
+                    sig = re.sub(r'\d+', 'N', sig)[:120]
+                    nxt = f.get('case', {}).get('_idx', frm) + 1
+                    with lock:
+                        if sig not in sigs:
+                            sigs.add(sig)
+                            pending.append((f, why, 'fail', None))
+                    frm = nxt
+                    continue
+                # crash: the current case tells where we were
+                sig = crash_signature(se)
+                case = None
+                if os.path.exists(pre + '.cur'):
+                    try:
+                        case = json.load(open(pre + '.cur'))
+                    except Exception:
+                        case = None
+                if case is None:
+                    with lock:
+                        pending.append((None, 'harness died (rc=%s) before any case: %s' % (rc, se[-1500:]), 'infra', None))
+                    return
+                with lock:
+                    if sig not in sigs:
+                        sigs.add(sig)
+                        pending.append(({'property': self.prop, 'why': sig, 'case': case, 'report': se[-6000:]},
+                                        sig, 'crash', sig))
+                    else:
+                        agg['labels']['repeat:' + sig] = agg['labels'].get('repeat:' + sig, 0) + 1
+                frm = case.get('_idx', frm) + 1
+            with lock:
+                agg['completed'] = False
+
+        threads = [threading.Thread(target=work, args=(i,)) for i in range(shards)]
+        for t in threads:
+            t.start()
+        for t in threads:
+            t.join()
+        for obj, why, kind, sig in pending:
+            if kind == 'infra':
+                raise InfraError(why)
+            self.judge(binpath, obj, why, kind, env=extra_env, crash_sig=sig)
+        agg['wall_s'] = time.time() - t0
         return agg
 
     def replay_tier(self, harness, extra_env=None):
